@@ -252,6 +252,32 @@ def caller_lists(ctx, rng):
     Face3D(bb, None, hh)
     if (snap(bb), snap(hh)) != before:
         ctx.violation('Face3D.__init__:mutates_argument:lists', 'the caller\'s boundary / holes lists were changed', {})
+    # a holed face cut by lines / a polyline: the face's own list of hole polygons (handed to the graph builder) and a caller's holes list
+    # given to DirectedGraphNetwork.from_shape_to_split keep their values
+    from ladybug_geometry.geometry3d import LineSegment3D
+    from ladybug_geometry.network import DirectedGraphNetwork
+    face = Face3D(list(b3), None, [list(h) for h in h3])
+    hp_before = snap([list(hp.vertices) for hp in face.hole_polygon2d]); holes_before = snap([list(h) for h in face.holes])
+    xs = [p.x for p in b]; ys = [p.y for p in b]
+    cut = LineSegment3D.from_end_points(P3((min(xs) - 1.0, (min(ys) + max(ys)) / 2 + 0.37, 0.0)), P3((max(xs) + 1.0, (min(ys) + max(ys)) / 2 - 0.41, 0.0)))
+    for name, call in (('split_with_line', lambda: face.split_with_line(cut, 0.01)), ('split_with_lines', lambda: face.split_with_lines([cut], 0.01))):
+        try:
+            call()
+        except Exception:
+            continue
+        ctx.count('api.caller_lists', key=name, sample={'method': name})
+        if snap([list(hp.vertices) for hp in face.hole_polygon2d]) != hp_before or snap([list(h) for h in face.holes]) != holes_before:
+            ctx.violation('Face3D.%s:mutates_receiver:hole_polygon2d' % name, 'after the split the face reports different hole polygons (vertex order / count) than before', {'method': name}); break
+    hpolys = [Polygon2D(list(h)) for h in holes]
+    hp_snap = snap([list(hp.vertices) for hp in hpolys]); ids = [id(hp) for hp in hpolys]
+    try:
+        from ladybug_geometry.geometry2d import LineSegment2D
+        DirectedGraphNetwork.from_shape_to_split(Polygon2D(list(b)), hpolys, [LineSegment2D.from_end_points(P2((cut.p1.x, cut.p1.y)), P2((cut.p2.x, cut.p2.y)))], 0.01)
+        ctx.count('api.caller_lists', key='from_shape_to_split', sample={'method': 'DirectedGraphNetwork.from_shape_to_split'})
+        if snap([list(hp.vertices) for hp in hpolys]) != hp_snap or [id(hp) for hp in hpolys] != ids:
+            ctx.violation('DirectedGraphNetwork.from_shape_to_split:mutates_argument:holes', 'the caller\'s list of hole polygons was changed', {})
+    except Exception:
+        pass
     # caller-owned list of faces of a solid, some of them wound inward (the routines re-orient faces: on copies only)
     from .C07 import solid_faces, perturb
     fam, faces, _ip = solid_faces(rng)
